@@ -432,44 +432,56 @@ def check_stream(fx, rep, crate, cfg):
                   'does not end after its last owed reply and reads a frame that belongs to a later exchange')
     rep.floor('R06.4', 4, 'index stores / re-evaluation obligations')
     # classification by item shape
-    item_sw = None
+    # every match on the received item counts: the normal form may have split the bookkeeping into one copy per known flag value
+    item_sws = []
     for sw in range(pn.n):
         if pn.is_cleanup(sw) or pn.term(sw)['k'] != 'switch':
             continue
         info = pn.switch_info(sw)
         if info and info.get('kind') == 'discr' and (info['place'].get('ty') or '').startswith(('std::result::Result<', 'core::result::Result<')):
-            ty = info['place'].get('ty')
-            if item_sw is None or pn.dominates(sw, item_sw[0]):
-                inner = [s2 for s2 in range(pn.n) if not pn.is_cleanup(s2) and pn.term(s2)['k'] == 'switch' and s2 != sw and
-                         (pn.switch_info(s2) or {}).get('kind') == 'discr' and pn.dominates(sw, s2) and
-                         ((pn.switch_info(s2)['place'].get('ty') or '').startswith(('std::result::Result<', 'core::result::Result<')))]
-                if inner:
-                    item_sw = (sw, info, inner[0], pn.switch_info(inner[0]))
-    if item_sw is None:
+            inner = [s2 for s2 in range(pn.n) if not pn.is_cleanup(s2) and pn.term(s2)['k'] == 'switch' and s2 != sw and
+                     (pn.switch_info(s2) or {}).get('kind') == 'discr' and pn.dominates(sw, s2) and
+                     ((pn.switch_info(s2)['place'].get('ty') or '').startswith(('std::result::Result<', 'core::result::Result<')))]
+            if inner:
+                item_sws.append((sw, info, inner[0], pn.switch_info(inner[0])))
+    # outermost ones only (a nested Result of the payload is not another item match)
+    item_sws = [x for x in item_sws if not any(y is not x and y[2] == x[0] for y in item_sws)]
+    if not item_sws:
         rep.bad('R06.4', '%s|item-match|%s' % (fk, cfg), pn.where(), 'match on the received item (Ok(Ok) / Ok(Err) / Err) not found')
         return
-    sw, info, sw2, info2 = item_sw
-    err_t = info['arms'].get(1, info['otherwise'])
-    merr_t = info2['arms'].get(1, info2['otherwise'])
-    ok_t = info2['arms'].get(0, info2['otherwise'])
+    err_ts = sorted({x[1]['arms'].get(1, x[1]['otherwise']) for x in item_sws})
+    merr_ts = sorted({x[3]['arms'].get(1, x[3]['otherwise']) for x in item_sws})
+    ok_ts = sorted({x[3]['arms'].get(0, x[3]['otherwise']) for x in item_sws})
+    err_t, merr_t, ok_t = err_ts[0], merr_ts[0], ok_ts[0]
+
+    def reach_all(starts, avoid=()):
+        out = set()
+        for st_ in starts:
+            out |= pn.reachable(st_, avoid=avoid)
+        return out
     inc_blocks = {b for b, p1 in idx_stores}
     # transport / decode error arm sets done
-    r = pn.reachable(err_t, avoid=done_true)
+    r = reach_all(err_ts, avoid=done_true)
     rep.check(not (rets & r), 'R06.4', '%s|error-ends-stream|%s' % (fk, cfg), C.where(pn, err_t),
               'a transport/decode error marks the stream done on every path', 'after a transport/decode error the stream is not marked done on every path')
-    r = pn.reachable(merr_t, avoid=inc_blocks)
+    r = reach_all(merr_ts, avoid=inc_blocks)
     rep.check(not (rets & r), 'R06.4', '%s|method-error-completes-call|%s' % (fk, cfg), C.where(pn, merr_t),
               'a method error advances the completed-call index on every path', 'a method error does not advance the completed-call index on every path')
     # success arm: increment iff continues != Some(true)
     cont = [(b, t) for b, t in pn.iter_terms('call') if t['callee'].get('name') == 'continues' and 'reply::Reply' in (t['callee'].get('def') or '')
-            and b in pn.reachable(ok_t)]
+            and b in reach_all(ok_ts)]
     ok = False
     det = {}
     if cont:
-        cb, ct = cont[0]
-        # comparison with the promoted Some(true)
+        cb = min(b for b, _ in cont)
+        cont_reach = set()
+        for b_, _ in cont:
+            cont_reach |= pn.reachable(b_)
+        # every comparison of a continues() result with the promoted Some(true): all of them read the same member of the same reply,
+        # so after the `!=` edge of one the `==` edge of another is infeasible (and vice versa)
+        comps = []
         for b, t in pn.iter_terms('call'):
-            if t['callee'].get('name') in ('ne', 'eq') and b in pn.reachable(cb):
+            if t['callee'].get('name') in ('ne', 'eq') and b in cont_reach:
                 prom = None
                 for a in t['args']:
                     tr = pn.trace(a)
@@ -489,13 +501,30 @@ def check_stream(fx, rep, crate, cfg):
                 si = pn.switch_info(swb)
                 ne_edge = si['true'] if t['callee']['name'] == 'ne' else si['false']
                 eq_edge = si['false'] if t['callee']['name'] == 'ne' else si['true']
-                some_true = bool(prom) and 'Some(const true)' in prom
-                inc_on_ne = not (rets & pn.reachable(ne_edge, avoid=inc_blocks))
-                no_inc_on_eq = not any(x in pn.reachable(eq_edge, avoid={swb}) for x in inc_blocks)
-                # ... and nowhere else: from the success arm an increment is reachable only through the `!= Some(true)` edge
-                only_via_ne = not any(x in C.reachable_without_edge(pn, ok_t, (swb, ne_edge)) for x in inc_blocks)
-                det.update({'increments_when_not_continuing': inc_on_ne, 'no_increment_when_continuing': no_inc_on_eq, 'no_other_way_to_the_increment': only_via_ne})
-                ok = some_true and inc_on_ne and no_inc_on_eq and only_via_ne
+                comps.append((swb, ne_edge, eq_edge, bool(prom) and 'Some(const true)' in prom))
+        if comps:
+            ne_edges = {(c[0], c[1]) for c in comps}
+            eq_edges = {(c[0], c[2]) for c in comps}
+
+            def reach_wo(start, banned, avoid=()):
+                seen, work = set(), [start]
+                while work:
+                    x = work.pop()
+                    if x in seen or x in avoid:
+                        continue
+                    seen.add(x)
+                    for s_ in pn.succ(x):
+                        if (x, s_) not in banned:
+                            work.append(s_)
+                return seen
+            some_true = all(c[3] for c in comps)
+            inc_on_ne = all(not (rets & reach_wo(c[1], eq_edges, inc_blocks)) for c in comps)
+            no_inc_on_eq = all(not any(x in reach_wo(c[2], ne_edges) for x in inc_blocks) for c in comps)
+            # ... and nowhere else: from the success arm an increment is reachable only through a `!= Some(true)` edge
+            only_via_ne = not any(x in reach_wo(o_, ne_edges) for x in inc_blocks for o_ in ok_ts)
+            det.update({'comparisons': len(comps), 'increments_when_not_continuing': inc_on_ne, 'no_increment_when_continuing': no_inc_on_eq,
+                        'no_other_way_to_the_increment': only_via_ne})
+            ok = some_true and inc_on_ne and no_inc_on_eq and only_via_ne
     if cont and not ok and 'compared_with' not in det:
         # pattern form: `match reply.continues() { Some(true) => .., _ => .. }` / `matches!(reply.continues(), Some(true))`: a switch on the
         # discriminant of the returned Option, then a switch on the bool payload of its Some
@@ -524,7 +553,7 @@ def check_stream(fx, rep, crate, cfg):
             if true_t is not None and true_t != false_t and p_sw[0] in pn.reachable(some_t):
                 inc_on_ne = all(not (rets & pn.reachable(t_, avoid=inc_blocks)) for _, t_ in other_edges)
                 no_inc_on_eq = not any(x in pn.reachable(true_t, avoid={d_sw[0]}) for x in inc_blocks)
-                seen, work = set(), [ok_t]
+                seen, work = set(), list(ok_ts)
                 while work:
                     x = work.pop()
                     if x in seen:
@@ -568,7 +597,7 @@ def check_stream(fx, rep, crate, cfg):
                 if si and si.get('kind') == 'discr' and 0 in si['arms'] and 'Poll' in (si['place'].get('ty') or ''):
                     starts.append(si['arms'][0])
     if not starts:
-        starts = [ok_t, merr_t, err_t]
+        starts = ok_ts + merr_ts + err_ts
     ok = bool(item_ret) and bool(set_blocks) and all(not (pn.reachable(st_, avoid=set_blocks) & {r_}) for st_ in starts for r_ in item_ret)
     rep.check(ok, 'R06.5', '%s|state-reset-per-item|%s' % (fk, cfg), pn.where(),
               'the state returns to Init on every path that yields an item (the next poll starts a fresh receive)',
@@ -643,6 +672,29 @@ def check(fx, rep, tier):
         check_chain(fx, rep, crate, cfg)
         check_stream(fx, rep, crate, cfg)
     check_proxy_template(fx, rep)
+    # R06.8: width of the counters.  Every enqueued call occupies at least one byte of the write buffer, which is bounded by
+    # MAX_BUFFER_SIZE (100 MiB < 2^27): a counter of at least 32 bits cannot wrap, a u16 / u8 wraps for chains the buffer still holds
+    rep.rule('R06.8', 'the chain / stream counters (calls enqueued, replies owed, calls completed) are integers of at least 32 bits: a chain that fits the write buffer cannot wrap them')
+    crate = fx.crate('zlink_core', 'full')
+    narrow = {'u8', 'u16', 'i8', 'i16'}
+    wide = {'usize', 'u32', 'u64', 'u128', 'isize', 'i32', 'i64', 'i128'}
+    nint = 0
+    for suffix in ('connection::chain::Chain', 'reply_stream::ReplyStream'):
+        for p_, a in crate.adts.items():
+            if not p_.endswith(suffix):
+                continue
+            for v in a.get('variants') or []:
+                for f in v.get('fields') or []:
+                    ty = (f.get('ty') or '').replace('std::num::', '').replace('core::num::', '')
+                    base = ty.split('<')[-1].rstrip('>') if ty.startswith(('Wrapping<', 'Saturating<', 'NonZero<')) else ty
+                    if base in narrow or base in wide:
+                        nint += 1
+                        rep.check(base in wide, 'R06.8', '%s|counter-width|%s' % (p_, f.get('name')), '%s:%s' % (a.get('file'), a.get('line')),
+                                  'counter `%s: %s` of %s is at least 32 bits wide' % (f.get('name'), ty, p_.split('::')[-1]),
+                                  'counter `%s` of %s has type %s: it wraps (or panics on overflow) for a chain of 2^%d calls, which the write buffer '
+                                  'still holds - the stream then yields too few replies and the rest is taken for a later exchange'
+                                  % (f.get('name'), p_.split('::')[-1], ty, 8 if '8' in base else 16))
+    rep.floor('R06.8', 3, 'integer counters of Chain / ReplyStream')
     # R06.6: the stream consumes exactly one frame per receive only if the inbound framing rules hold (same rule code as C01)
     rep.rule('R06.6', 'inbound framing rules of C01 (each receive consumes exactly one frame; no early return with a partial frame buffered)')
     import engine, c01
